@@ -1,4 +1,4 @@
-//@unit U16 props=C01,C08,C09,C11,C12,C13,C14,C15 rlimit=150 RenetClient::get_packets_to_send: one budget through all channels, every payload fits (renet/src/remote_connection.rs)
+//@unit U16 props=C01,C03,C08,C09,C11,C12,C13,C14,C15 rlimit=150 RenetClient::get_packets_to_send: one budget through all channels, every payload fits (renet/src/remote_connection.rs)
 #![feature(allocator_api)]
 #![allow(unused_imports, dead_code, unused_variables, unused_mut)]
 use vstd::prelude::*;
@@ -66,6 +66,7 @@ pub struct ConnectionStats;
 //@include contracts/shared/client_send_specs.rs
 //@include contracts/shared/client_send_ready_specs.rs
 //@include contracts/shared/client_record_specs.rs
+//@include contracts/shared/client_label_specs.rs
 
 impl ConnectionStats {
     #[verifier::external_body]
@@ -110,7 +111,8 @@ impl RenetClient {
         let ghost s0 = *self;
         let ghost seq0 = self.packet_sequence as int;
         proof { broadcast use glue_lemmas::lemma_same_but_one; lemma_all_sendable_empty(seq0);
-            assert(records_written(s0.sent_packets@, s0.sent_packets@, Seq::<Packet>::empty(), seq0, 0, s0.current_time)) by { reveal(records_written); } }
+            assert(records_written(s0.sent_packets@, s0.sent_packets@, Seq::<Packet>::empty(), seq0, 0, s0.current_time)) by { reveal(records_written); }
+            assert(all_labelled(Seq::<Packet>::empty(), s0.channel_send_order@)); }
 //@loop 1 iter=itO
             invariant
                 itO.seq().len() == s0.channel_send_order@.len(),
@@ -126,6 +128,9 @@ impl RenetClient {
                 self.packet_sequence == seq0 + packets@.len(),
                 packets@.len() + available_bytes <= s0.available_bytes_per_tick + itO.index() * 0x800_0000_0000,
                 all_sendable(packets@, seq0),                                                        // @C13 get_packets_to_send.every_channel_packet_is_sendable
+                all_labelled(packets@, s0.channel_send_order@),                                      // @C03,C11 get_packets_to_send.every_packet_labelled_with_a_channel_of_the_send_order
+                forall|c: u8| #[trigger] self.send_reliable_channels@.contains_key(c) ==> self.send_reliable_channels@[c].channel_id == c,
+                forall|c: u8| #[trigger] self.send_unreliable_channels@.contains_key(c) ==> self.send_unreliable_channels@[c].channel_id == c,
                 packets_payload(packets@) + available_bytes == s0.available_bytes_per_tick,          // @C14 get_packets_to_send.one_budget_through_all_channels
 //@after /for order in self\.channel_send_order\.iter\(\) \{/
             let ghost k1 = itO.index() as int;
@@ -141,6 +146,14 @@ impl RenetClient {
 //@after /packets\.append\(&mut channel\.get_packets_to_send\(&mut self\.packet_sequence, &mut available_bytes, self\.current_time\)\);/
                     proof {
                         let added = rel_packets_v;
+                        assert(all_labelled(added, s0.channel_send_order@)) by {
+                            assert(s0.channel_send_order@[k1] == ChannelOrder::Reliable(*channel_id));
+                            assert forall|i: int| 0 <= i < added.len() implies labelled_from_order(#[trigger] added[i], s0.channel_send_order@) by {
+                                assert(packet_channel(added[i]) == Some(*channel_id));
+                                assert(added[i] is SmallReliable || added[i] is ReliableSlice);
+                            }
+                        }
+                        lemma_all_labelled_append(pk_before, added, s0.channel_send_order@);
                         lemma_all_sendable_append(pk_before, added, seq0);
                         lemma_packets_payload_append(pk_before, added);
                     }
@@ -157,6 +170,14 @@ impl RenetClient {
                         let uid1 = self.send_unreliable_channels@[*channel_id].sliced_message_id as int;
                         let m = choose|m: Map<u64, int>| uids_ok(added, uq0, m, uid0, uid1);
                         lemma_unreliable_packets_sendable(added, seqb, uq0, m, uid0, uid1);
+                        assert(all_labelled(added, s0.channel_send_order@)) by {
+                            assert(s0.channel_send_order@[k1] == ChannelOrder::Unreliable(*channel_id));
+                            assert forall|i: int| 0 <= i < added.len() implies labelled_from_order(#[trigger] added[i], s0.channel_send_order@) by {
+                                assert(packet_channel(added[i]) == Some(*channel_id));
+                                assert(upkt_ok(added[i], seqb + i, uq0));
+                            }
+                        }
+                        lemma_all_labelled_append(pk_before, added, s0.channel_send_order@);
                         lemma_all_sendable_append(pk_before, added, seq0);
                         lemma_packets_payload_append(pk_before, added);
                     }
@@ -169,6 +190,7 @@ impl RenetClient {
                 assert(ap matches Packet::Ack { sequence, ack_ranges } && ack_ranges@ =~= s0.pending_acks@ && sequence == seq0 + pk_a.len());
                 match ap { Packet::Ack { sequence, ack_ranges } => { lemma_pending_acks_sendable(sequence, ack_ranges); }, _ => {} }
                 lemma_all_sendable_push(pk_a, ap, seq0);
+                assert(all_labelled(packets@, s0.channel_send_order@));
                 lemma_packets_payload_push(pk_a, ap);
                 assert(pk_a.push(ap) =~= packets@);
             }
@@ -215,6 +237,7 @@ impl RenetClient {
         proof {
             assert(payload_lens_ok(serialized_packets@, pk, pk.len() as int));
             assert(all_sendable(pk, seq0));
+            assert(all_labelled(pk, s0.channel_send_order@));
             assert(packets_payload(pk) <= s0.available_bytes_per_tick);
             assert(self.sent_packets@ == s3.sent_packets@);
             assert(s2.sent_packets@ == s0.sent_packets@ && s2.current_time == s0.current_time);
